@@ -32,6 +32,17 @@ def _pre_items(r, plan_words, secrets, n, plan_opts=None, addrs=()):
     items = []
     for _ in range(n):
         c = r.random()
+        if r.random() < 0.1:
+            # an earlier anonymizer whose salt starts outside the Juniper alphabet met $9$ secrets (today that request
+            # fails inside the $9$ encoder; a host application carries on): whatever that path does to the codec's
+            # module-level tables must not reach the observed run (seeded C13-t)
+            items.append({"kind": "lines",
+                          "opts": {"pwd": True, "ip": False, "salt": r.choice("_#!~@%+=") + "s%d" % r.randint(0, 99), "reserved": None,
+                                   "words": None, "pp": None, "undo": False, "pa": None},
+                          "text": "set system root-authentication encrypted-password \"%s\"\nsnmp-server community %s RO\n" % (
+                              G.j9_encode("Pre%dhist" % r.randint(0, 999), r.choice(G.J9_ALPHA), r.choice("nQz7i")),
+                              G.j9_encode("c%d" % r.randint(0, 99), r.choice(G.J9_ALPHA), "n"))})
+            continue
         if plan_opts is not None and r.random() < 0.12 and plan_opts.get("salt") is not None:
             # the very same run was already done once in this process (repeated runs)
             items.append({"kind": "run", "step": {"entry": r.choice(["files", "file", "io", "cli"]), "opts": dict(plan_opts),
@@ -480,6 +491,21 @@ def _gen_c10(r, seed, child=False):
             lines.append(G.expand(r, r.choice(G.LINES_A4), ctx))
     if r.random() < 0.05:
         lines.insert(r.randint(0, len(lines)), GC.boundary_line(r, ctx, boundary=r.choice([8192, 65536, 65536]), words=True))
+    if rw and r.random() < 0.06:
+        # a long stretch of lines that hold a listed word and thousands of distinct other tokens, then the reserved tokens
+        # again: size-bounded per-token memos must not forget which tokens are reserved (seeded C10-t)
+        n_tok = r.choice([1200, 4500, 9000])
+        inner_all = [w for w in o["words"] if any(w.lower() in t for t in rw)] or o["words"]
+        at = r.randint(0, len(lines) // 2)
+        bulk, k = [], 0
+        while k < n_tok:
+            per = r.randint(6, 14)
+            bulk.append({"segs": [["lit", "description "], ["w", r.choice(inner_all), {"w": 0}],
+                                  ["lit", " " + " ".join("k%05dk" % (k + j) for j in range(per))]], "eol": "\n"})
+            k += per
+        lines[at:at] = bulk
+        for tok in rw:
+            lines.append({"segs": [["lit", r.choice(["", " set "])], ["rw", tok], ["lit", r.choice(["", " x"])]], "eol": "\n"})
     collide = None
     if r.random() < 0.08 and style != "reserved":
         # two matched texts directed at one another: with ~10 000 case variants of a long word list, some pair shares the first
